@@ -31,25 +31,25 @@ func writeEvidence(pc *ParentCtx, wall float64, newViolations, knownSeen int, in
 		violSigs[k] = v
 	}
 	cov := map[string]any{
-		"evaluations":         s.Evaluations,
-		"distinct_nontrivial": len(s.Shapes),
-		"rule":                pc.Prop.Rule,
-		"samples":             samples,
-		"cases":               s.Cases,
-		"comparisons":         s.Comparisons,
-		"features":            sortedMap(s.Features),
-		"observed":            sortedMap(s.Observed),
-		"skipped":             sortedMap(s.Skipped),
+		"evaluations":          s.Evaluations,
+		"distinct_nontrivial":  len(s.Shapes),
+		"rule":                 pc.Prop.Rule,
+		"samples":              samples,
+		"cases":                s.Cases,
+		"comparisons":          s.Comparisons,
+		"features":             sortedMap(s.Features),
+		"observed":             sortedMap(s.Observed),
+		"skipped":              sortedMap(s.Skipped),
 		"violation_signatures": violSigs,
-		"known_findings_seen": knownSeen,
-		"verdict":             verdict,
-		"inconclusive":        inconclusive,
-		"replicas":            len(pc.Replica),
-		"notes":               s.Notes,
+		"known_findings_seen":  knownSeen,
+		"verdict":              verdict,
+		"inconclusive":         inconclusive,
+		"replicas":             len(pc.Replica),
+		"notes":                s.Notes,
 		"tools": map[string]string{
-			"go":     goVersion(),
-			"harness": "verifharness (vmon parent/child), race build: " + fmt.Sprint(pc.Prop.Race),
-			"repo_head": gitHead(pc.RepoDir),
+			"go":         goVersion(),
+			"harness":    "verifharness (vmon parent/child), race build: " + fmt.Sprint(pc.Prop.Race),
+			"repo_head":  gitHead(pc.RepoDir),
 			"repo_dirty": gitDirty(pc.RepoDir),
 		},
 	}
